@@ -296,6 +296,32 @@ pub fn gen_many(r: &mut Rng, nrec: usize) -> IoCase {
     IoCase { fastq, eol, wrap, fin: r.chance(2, 3), recs, container, suffix }
 }
 
+/// files of 70-150 kB in which the record-start characters ('>' for FASTA; '@' and '+' for FASTQ) make up most of the
+/// descriptions and quality strings: some of them then sit exactly at a read-buffer boundary (8 KiB, 64 KiB, ...), where a
+/// scanner that keeps its line-start state per buffer goes wrong
+pub fn gen_boundary(r: &mut Rng) -> IoCase {
+    let fastq = r.chance(1, 2);
+    let mut recs = Vec::new();
+    let mut total = 0usize;
+    let target = r.range(70_000, 150_000) as usize;
+    let mut i = 0;
+    while total < target {
+        let dl = r.range(20, 200) as usize;
+        let mark = if fastq { b'@' } else { b'>' };
+        let mut desc: Vec<u8> = (0..dl).map(|_| if r.chance(4, 5) { mark } else { *r.pick(b"+x |") }).collect();
+        desc[0] = mark;
+        desc[dl - 1] = mark;
+        let len = r.range(1, 40) as usize;
+        let seq = gen::clean_seq(r, len, gen::FLAVORS[0].1);
+        let qual: Vec<u8> = if fastq { (0..len).map(|_| *r.pick(b"@@@+I")).collect() } else { vec![] };
+        total += dl + 2 * len + 12;
+        recs.push(Src { id: format!("r{}", i).into_bytes(), desc: Some(desc), seq, qual });
+        i += 1;
+    }
+    let container = r.pick(&["plain", "plain", "gzc"]).to_string();
+    IoCase { fastq, eol: b"\n".to_vec(), wrap: *r.pick(&[60usize, 100000]), fin: true, recs, container, suffix: if fastq { ".fq" } else { ".fa" }.to_string() }
+}
+
 fn expected(c: &IoCase) -> String {
     let v: Vec<(usize, Vec<u8>, Vec<u8>)> = c
         .recs
@@ -454,6 +480,11 @@ pub fn run_c06(tier: &str, seed: u64, model: &Model, corpus_lines: Vec<String>, 
         }
         for n in counts {
             let mut c = gen_many(&mut rng, n);
+            fix_container(&mut c, &mut rng);
+            cases.push(c);
+        }
+        for _ in 0..(if tier == "thorough" { 40 } else { 6 }) {
+            let mut c = gen_boundary(&mut rng);
             fix_container(&mut c, &mut rng);
             cases.push(c);
         }
